@@ -328,6 +328,28 @@ func (s *State) unreify(t *Term, typ types.Type) Value {
 			}
 			return &SliceVal{Arr: App("unbox.arr."+es, SArr(SInt, es), t), Len: ln, Cap: ln, Elem: sl.Elem()}
 		}
+		if st, ok := u.(*types.Struct); ok {
+			// a struct value of unknown origin identified by t: its fields are
+			// functions of the identity
+			sv := &StructVal{Typ: st, Fields: make([]Value, st.NumFields())}
+			for i := 0; i < st.NumFields(); i++ {
+				ft := st.Field(i).Type()
+				name := "fld." + shortKey(typeKey(typ)) + "." + st.Field(i).Name()
+				if isScalarType(ft) {
+					so := sortOfType(ft)
+					s.X.Ctx.DeclareFunc(name, []string{SInt}, so)
+					ftm := App(name, so, t)
+					if so == SInt && !isBoundTerm(t) {
+						s.Assume(Ge(ftm, IntLit(0)))
+					}
+					sv.Fields[i] = s.unreify(ftm, ft)
+				} else {
+					s.X.Ctx.DeclareFunc(name, []string{SInt}, SInt)
+					sv.Fields[i] = s.unreify(App(name, SInt, t), ft)
+				}
+			}
+			return sv
+		}
 		// opaque aggregate: expand lazily as fresh
 		return s.freshValue("unboxed", typ)
 	}
@@ -364,6 +386,9 @@ func (s *State) freshValue(hint string, typ types.Type) Value {
 		return &PtrVal{Ref: t, Base: u.Elem(), Typ: u.Elem()}
 	case *types.Basic:
 		t := s.X.Ctx.Fresh(hint, sortOfType(typ))
+		if t.Sort == SString {
+			return S(t)
+		}
 		if u.Info()&types.IsUnsigned != 0 {
 			s.Assume(Ge(t, IntLit(0)))
 		}
@@ -407,6 +432,9 @@ func (s *State) zeroValue(typ types.Type) Value {
 func zeroTerm(sort string) *Term {
 	if sort == SBool {
 		return False
+	}
+	if sort == SString {
+		return Atom("\"\"", SString)
 	}
 	if sort == SInt {
 		return IntLit(0)
